@@ -56,9 +56,13 @@ def parseOverlap (s : String) : M Overlap :=
   | "partial_notmost" => pure .partialNotMost | "none" => pure .none
   | s => .error s!"unknown overlap verdict {s}"
 
+/-- `force = force.lower()`; `'none'`, `'taper'`, anything starting with `'extrap'`, else invalid -/
 def parseForce (s : String) : M Force :=
-  match s with
-  | "none" => pure .none | "extrap" => pure .extrap | "taper" => pure .taper | _ => pure .bogus
+  let t := String.mk (s.toList.map Char.toLower)
+  if t == "none" then pure .none
+  else if t == "taper" then pure .taper
+  else if t.startsWith "extrap" then pure .extrap
+  else pure .bogus
 
 def parseIType (s : String) : M IntegType :=
   match s with
@@ -233,13 +237,21 @@ def dispatchC19M (op : String) (j : Json) : M Json := do
         pure ({ data := d, container := c, caller := true } : ArrCell Rat)
       let dicts ← (← fArr j "dicts").mapM parseDict
       let steps ← fArr j "steps"
+      -- the code version: `Fixes.current` unless the case names the repairs it was run against
+      -- (scratch-worktree runs of the pending patches: C19_FIXES=clip,ext,errstate)
+      let fx : Fixes := match fOpt j "fixes" with
+        | some (.str s) =>
+            let l := s.splitOn ","
+            { copyBeforeClip := l.contains "clip", copyExtHeader := l.contains "ext",
+              errstate := l.contains "errstate" }
+        | _ => Fixes.current
       let ncaller := arrs.length
       let mut h : Heap Rat := Heap.init arrs dicts
       let mut opq : List Nat := []
       let mut outs : Array Json := #[]
       for s in steps do
         let (c, dataMissing) ← parseCall s
-        let (h', out) := step Fixes.current env h c
+        let (h', out) := step fx env h c
         let nOld := h.objs.length
         let newIds := (List.range (h'.objs.length - nOld)).map (· + nOld)
         -- opacity of the numbers of new objects
@@ -263,12 +275,13 @@ def dispatchC19M (op : String) (j : Json) : M Json := do
         let kinds := newIds.map fun o =>
           (toString o, match h'.objs[o]? with | some ob => Json.str (kindName ob.kind) | none => Json.null)
         -- values of an object whose numbers the model does not know are not reported
+        let unknown := Json.mkObj [("ok", Json.mkObj [("vals", Json.null)])]
+        let isOpq := fun (o : Nat) => match h.objs[o]? with
+          | some ob => opq.contains o || HTree.hasBB ob.tree
+          | none => false
         let outJ := match c, out with
-          | .sample o _ _, .ok (.vals _) =>
-              (match h.objs[o]? with
-               | some ob => if opq.contains o || HTree.hasBB ob.tree
-                            then Json.mkObj [("ok", Json.mkObj [("vals", Json.null)])] else jOutcome out
-               | none => jOutcome out)
+          | .sample o _ _, .ok (.vals _) => if isOpq o then unknown else jOutcome out
+          | .sample o _ _, .err .nan => if isOpq o then unknown else jOutcome out
           | _, _ => jOutcome out
         outs := outs.push (Json.mkObj [
           ("out", outJ),
